@@ -176,7 +176,12 @@ class C20:
             nn = rng.choice([3, 4, 4, 5])
             tm = rng.choice([3, 4, 5, 6])
             directed = (i % 4 == 3)
-            ops = temporal_graph(rng, nn, tm, directed, p=rng.choice([0.2, 0.3, 0.4]) * (0.6 if directed else 1), loops=False)
+            # self-loops in one case of six (a node whose only contacts in the window are self-loops reaches nobody: score 0)
+            ops = temporal_graph(rng, nn, tm, directed, p=rng.choice([0.2, 0.3, 0.4]) * (0.6 if directed else 1), loops=(i % 6 == 5))
+            lonely = (i % 30 == 11)       # the only node present at start has nothing but a one-instant self-loop in the window
+            if lonely:
+                s0 = rng.choice([0, 1, 2])
+                ops = [["add", 1, 1, s0, None], ["add", 2, 3, s0 + 1, None], ["add", 3, 4, s0 + 2, None], ["add", 4, 2, s0 + 4, None]]
             if not ops:
                 continue
             nodes = sorted({x for o in ops for x in (o[1], o[2])})
@@ -184,6 +189,8 @@ class C20:
             labels = {x: (1 if mode == 1 else rng.randint(1, 2 if mode == 2 else 3)) for x in nodes}
             start = rng.randint(-1, tm)
             delta = rng.choice([0, 1, 2, 3, 4, 8])
+            if lonely:
+                start, delta = s0, rng.choice([1, 2, 3])
             alphas = sorted(set(rng.choice([100, 200, 300, 100, 200, 50, 150, 250]) for _ in range(rng.choice([1, 2]))))
             # a renaming of node ids and label values
             perm = nodes[:]; rng.shuffle(perm)
